@@ -760,7 +760,9 @@ def judge(out, c, r, decl, xmldir):
             out.distinct.add(h)
         if not r["ok"]:
             wit["error"] = r["err"]
-            if fam == "unchecked":
+            if fam == "unchecked" and re.search(
+                    r"(method|scf|maxcore|pointcharges|freeform)\d|nested",
+                    r["err"]):
                 out.violation("merge/unchecked-section-rejected",
                               "user content below a section declared "
                               "unchecked=\"\" is rejected as undeclared", wit)
